@@ -475,6 +475,11 @@ func (g *bgen) call(f *bFunc, d int, fit bool) *BNode {
 		switch {
 		case i < fixed:
 			p = f.Params[i]
+		case f.Variadic && spread && i == count-1 && s.Intn(4) == 0:
+			// a long list from the data: 100 numbers, or 100 values one of which is a string
+			nm := []string{"big100", "big100", "bigbad"}[s.Intn(3)]
+			n.Kids = append(n.Kids, &BNode{Op: bNameRef, Text: nm, V: g.data[nm]})
+			continue
 		case f.Variadic && spread && i == count-1:
 			p = f.Params[len(f.Params)-1] // the array to spread: elements of the tail type
 		case f.Variadic:
@@ -510,6 +515,7 @@ type bEval struct {
 	errFn    string // the evaluation error must name this function ("" when the error is not a returned one)
 	mustName string
 	cells    map[string]int64
+	remap    map[*bFunc]*bFunc // the data map now holds another function under the same selector
 }
 
 func (e *bEval) eval(n *BNode) (BV, int) {
@@ -533,6 +539,9 @@ func (e *bEval) eval(n *BNode) (BV, int) {
 		return e.eval(n.Kids[1])
 	case bCallOp:
 		f := n.Fn
+		if r, ok := e.remap[f]; ok {
+			f = r
+		}
 		var args []BV
 		for _, k := range n.Kids {
 			v, st := e.eval(k)
@@ -696,6 +705,16 @@ func bridgeData(loc *time.Location) (map[string]interface{}, map[string]BV) {
 		"mempty": map[string]interface{}{},
 		"mnil":   map[string]interface{}{"a": nil, "b": dec(3, 0)},
 	}
+	bigL, bigbad := make([]interface{}, 100), make([]interface{}, 100)
+	bigV, bigbadV := BV{K: bArr}, BV{K: bArr}
+	for i := 0; i < 100; i++ {
+		bigL[i], bigbad[i] = dec(int64(i+1), 0), dec(int64(i+1), 0)
+		bigV.A = append(bigV.A, bvInt(int64(i+1)))
+		bigbadV.A = append(bigbadV.A, bvInt(int64(i+1)))
+	}
+	bigbad[70] = "seventy-one"
+	bigbadV.A[70] = bvStr("seventy-one")
+	data["big100"], data["bigbad"] = bigL, bigbad
 	model := map[string]BV{
 		"nd": bvNum(big.NewRat(4225, 100)), "ni": bvInt(9), "nf": bvNum(big.NewRat(5, 4)), "s1": bvStr("from data"), "t1": {K: bTime, T: t1},
 		"mnum":   {K: bMap, M: map[string]BV{"a": bvInt(1), "b": bvNum(big.NewRat(29, 10))}},
@@ -703,6 +722,7 @@ func bridgeData(loc *time.Location) (map[string]interface{}, map[string]BV) {
 		"mmix":   {K: bMap, M: map[string]BV{"a": bvInt(1), "b": bvStr("x"), "c": bvBool(true)}},
 		"mempty": {K: bMap, M: map[string]BV{}},
 		"mnil":   {K: bMap, M: map[string]BV{"a": bvNull(), "b": bvInt(3)}},
+		"big100": bigV, "bigbad": bigbadV,
 	}
 	return data, model
 }
@@ -958,6 +978,63 @@ func bridgeOnce(rc *RunCtx, wl, fl *Stream, primary bool) {
 				// after an unspecified call nothing is asserted, but it cannot have produced two invocations before anything else ran
 				rc.probe("invocations_after_unspecified_cell")
 			}
+		}
+	}
+	// the same runner, the same parsed formula, but the caller has put another function under
+	// each selector key in the meantime: the call must reach the function found in the data now
+	hasVia := false
+	for _, nm := range names {
+		if w.funcs[nm].Via != "" {
+			hasVia = true
+		}
+	}
+	if hasVia && len(rc.viol) == 0 {
+		placeFuncs()
+		w.log, w.n, w.failAt = nil, 0, 0
+		r := formula.NewRunner()
+		r.SetThis(data)
+		w.runner = r
+		src, perr := tc.parse(text, true)
+		if perr == nil {
+			func() {
+				defer func() { recover() }()
+				r.Resolve(ctx, src.Expression) // first evaluation: whatever the runner remembers, it remembers now
+			}()
+			remap := map[*bFunc]*bFunc{}
+			ns2 := map[string]interface{}{}
+			for _, nm := range names {
+				f := w.funcs[nm]
+				if f.Via == "" {
+					continue
+				}
+				alt := *f
+				alt.Name = f.Name + "x"
+				alt.RetSeed = f.RetSeed + 3
+				alt.Fail = false
+				remap[f] = &alt
+				ns2[f.Via] = w.build(&alt)
+			}
+			r.SetThisValue("ns", ns2)
+			ev := &bEval{w: w, perFn: map[string]int{}, cells: map[string]int64{}, remap: remap}
+			_, st := ev.eval(root)
+			w.log, w.n = nil, 0
+			func() {
+				defer func() { recover() }()
+				r.Resolve(ctx, src.Expression)
+			}()
+			r.SetThisValue("ns", data["ns"])
+			if st != stUnspec {
+				for i := 0; i < len(ev.exp) && i < len(w.log); i++ {
+					if w.log[i].fn != ev.exp[i].fn.Name {
+						rc.violation("the function found in the data is invoked", "stale-callee", "`"+text+"` evaluated again on the same runner after the caller replaced `ns`: invocation "+strconv.Itoa(i+1)+" reached "+w.log[i].fn+", the data now holds "+ev.exp[i].fn.Name)
+						break
+					}
+				}
+				if len(w.log) < len(ev.exp) {
+					rc.violation("the function found in the data is invoked", "stale-callee", "`"+text+"` evaluated again on the same runner after the caller replaced `ns`: "+strconv.Itoa(len(w.log))+" invocation(s) recorded, "+strconv.Itoa(len(ev.exp))+" expected")
+				}
+			}
+			rc.probe("selector_callee_replaced_between_evaluations")
 		}
 	}
 	rc.probes["bridge_calls_generated"] += int64(g.calls)
